@@ -82,7 +82,7 @@ def d2_metropolis(ctx):
             good = len(l) == 2 and l == r[::-1]
         ctx.check(good, f, t, f"{f.short}: accepted move swaps the two proposed positions", "", "the accepted move is not the swap of the proposed pair")
         # proposal: uniform adjacent pair
-        idx = [n for n in astx.walk_own(f.node) if isinstance(n, ast.ListComp) and isinstance(n.elt, ast.Tuple) and len(n.elt.elts) == 2]
+        idx = [n for n in astx.walk_own(f.node) if isinstance(n, astx.LCOMP) and isinstance(n.elt, ast.Tuple) and len(n.elt.elts) == 2]
         good = False
         d = ""
         if idx:
@@ -290,7 +290,7 @@ def d5_cohesion_sampler(ctx):
     tg = sorted(astx.u(t) for d in dels for t in d.targets)
     ctx.check(tg == ["blocs[bloc_index]", "values[bloc_index]"] and len({id(pm.get(d)) for d in dels}) == 1, f, dels[0] if dels else f.node,
               "an exhausted slate is deleted from both lists at the same index", str(tg), f"deletions are {tg}")
-    ren = [st for st, dv in astx.defs_of(f.node, "values") if isinstance(dv, ast.ListComp)]
+    ren = [st for st, dv in astx.defs_of(f.node, "values") if isinstance(dv, astx.LCOMP)]
     good = False
     if len(ren) == 1:
         v = astx.u(ren[0].value)
@@ -310,7 +310,7 @@ def d5_cohesion_sampler(ctx):
     if len(sh) == 1 and isinstance(sh[0].args[0], ast.Name):
         v = sh[0].args[0].id
         dv = astx.unique_def(f.node, v)
-        okexp = isinstance(dv, ast.ListComp) and len(dv.generators) == 2 and astx.u(dv.generators[0].iter) == "blocs" and \
+        okexp = isinstance(dv, astx.LCOMP) and len(dv.generators) == 2 and astx.u(dv.generators[0].iter) == "blocs" and \
             astx.u(dv.generators[1].iter) == f"range(len({f.params[0]}[{astx.u(dv.generators[0].target)}]))" and astx.u(dv.elt) == astx.u(dv.generators[0].target)
         blk = pm.get(astx.stmt_of(sh[0], pm))
         seq = [astx.u(x) for x in getattr(blk, "body", [])]
@@ -348,8 +348,8 @@ def d6_model_parameters(ctx):
             call = dc.value
             if isinstance(call, ast.Call) and astx.call_name(call) == "combine_preference_intervals" and len(call.args) == 2:
                 a0, a1 = call.args
-                ok0 = isinstance(a0, ast.ListComp) and astx.u(a0.generators[0].iter) == "self.blocs" and astx.u(a0.elt) == f"self.pref_intervals_by_bloc[{bloc}][{astx.u(a0.generators[0].target)}]"
-                ok1 = isinstance(a1, ast.ListComp) and astx.u(a1.generators[0].iter) == "self.blocs" and astx.u(a1.elt) == f"self.cohesion_parameters[{bloc}][{astx.u(a1.generators[0].target)}]"
+                ok0 = isinstance(a0, astx.LCOMP) and astx.u(a0.generators[0].iter) == "self.blocs" and astx.u(a0.elt) == f"self.pref_intervals_by_bloc[{bloc}][{astx.u(a0.generators[0].target)}]"
+                ok1 = isinstance(a1, astx.LCOMP) and astx.u(a1.generators[0].iter) == "self.blocs" and astx.u(a1.elt) == f"self.cohesion_parameters[{bloc}][{astx.u(a1.generators[0].target)}]"
                 good = ok0 and ok1 and astx.u(dc.generators[0].iter) == "self.blocs" and astx.u(dc.generators[0].target) == bloc
             d = astx.u(dc)[:160]
             seen[cname] = astx.u(dc)
